@@ -1661,6 +1661,7 @@ class _Union(Flow):
             return self.get(st, e.id)
         if isinstance(e, ast.Attribute):
             if e.attr == 'runids' and isinstance(e.value, ast.Name) and e.value.id in self.f.params():
+                self.uc.cov.setdefault(self.f.qname, {})
                 return COL(BOTH, 1, self.f.qname)
             return None
         if isinstance(e, ast.Subscript):
@@ -1699,12 +1700,16 @@ class _Union(Flow):
                         k = self.class_kind(b.args[1])
                         if k is not None:
                             keep = t[1] & {k} if not neg else t[1] - {k}
-                            return COL(keep, 1, None) + (('filtered', t[3], tuple(sorted(keep))),)
+                            return COL(keep, 1, t[3])  # the consumer of the filtered stream covers only these alternatives
                     if not neg and _is_sentinel_test(b, x):
                         self.cmp_ok(b, EL(t[1]), left=norm(b.left) == x, node=b)
                         return t  # accepted idiom: sentinel filter keeps every real run id / range
                 if R_ in t[1]:
-                    self.fail(e, f'{norm(e)[:70]}: filter over run ids that may be ranges is not an isinstance or sentinel (>= 0) test; not understood')
+                    msg = f'{norm(e)[:70]}: filter over run ids that may be ranges is neither an isinstance nor a sentinel (>= 0) test'
+                    self.fail(e, msg + '; entries may be dropped silently (not understood)')
+                    if t[3]:
+                        for alt in sorted(t[1]):
+                            self.cover(t[3], alt, False, msg)
                 return COL(t[1], 1, None)
             fn = self.prog.func_of(self.prog.resolve_in(e.func, self.f)) if not isinstance(e.func, ast.Call) else None
             if fn is not None and fn.qname in self.uc.memo and self.uc.memo[fn.qname] is not None:
@@ -1858,6 +1863,7 @@ class _Union(Flow):
                 pvs = [k for k, v in st if v == PV]
                 yes = st
                 if hit:
+                    self.uc.cov.setdefault(self.f.qname, {})
                     for n in pvs:
                         yes = self.put(yes, n, COL(BOTH, 1, self.f.qname))
                     no = st
@@ -2006,8 +2012,6 @@ class _Union(Flow):
                 t = self.comp(s.value, st, record=False)
             for x in tg:
                 if isinstance(x, ast.Name):
-                    if t is not None and t[0] == 'col' and len(t) > 4:
-                        t = t[:4]
                     st = self.put(st, x.id, t)
                     if t is not None and t[0] == 'col' and x.id not in self.f.params():
                         self.uc.collected.setdefault((self.f.qname, x.id), s)
@@ -2026,6 +2030,96 @@ class _Union(Flow):
             if t is not None:
                 self.returns.add(t)
         return (st,)
+
+
+class _Terms(Flow):
+    """how many entries one run-id expression adds to a collection: state = 0, 1 or 2 (= several)"""
+
+    def __init__(self, prog, func, coll, depth=0):
+        super().__init__()
+        self.prog, self.f, self.coll, self.depth = prog, func, coll, depth
+        self.not_understood = []
+
+    def on_call(self, call, st):
+        f = call.func
+        if isinstance(f, ast.Attribute) and isinstance(f.value, ast.Name) and f.value.id == self.coll:
+            if f.attr in _GROW_ONE:
+                return (min(2, st + 1),)
+            if f.attr in _GROW_MANY:
+                return (2,)
+            return (st,)
+        pos = [i for i, a in enumerate(call.args) if isinstance(a, ast.Name) and a.id == self.coll]
+        if pos:
+            fn = self.prog.func_of(self.prog.resolve_in(f, self.f)) if not isinstance(f, ast.Call) else None
+            if fn is None or self.depth >= 2:
+                self.not_understood.append(norm(call)[:70])
+                return (2,)
+            ps = fn.params()
+            if ps and ps[0] in ('self', 'cls') and not fn.is_staticmethod():
+                ps = ps[1:]
+            if pos[0] >= len(ps):
+                self.not_understood.append(norm(call)[:70])
+                return (2,)
+            sub = _Terms(self.prog, fn, ps[pos[0]], self.depth + 1)
+            out = sub.exits(fn.node, st)
+            self.not_understood += sub.not_understood
+            return tuple(out) or (st,)
+        return (st,)
+
+    def on_stmt(self, s, st):
+        if isinstance(s, ast.AugAssign) and isinstance(s.target, ast.Name) and s.target.id == self.coll:
+            return (2,)
+        return (st,)
+
+
+def and_joined(prog, cls_q):
+    """[(producer method, collection name)]: collections that a backend joins with AND to form the WHERE clause"""
+    out = {}
+    cls = prog.cls(cls_q)
+    for _n, g in sorted(cls.methods.items()):
+        for c in g.calls():
+            if not (
+                isinstance(c.func, ast.Attribute)
+                and c.func.attr == 'join'
+                and isinstance(c.func.value, ast.Constant)
+                and isinstance(c.func.value.value, str)
+                and re.search(r'\bAND\b', c.func.value.value, re.I)
+                and len(c.args) == 1
+                and isinstance(c.args[0], ast.Name)
+            ):
+                continue
+            y = c.args[0].id
+            for n in g.own_nodes():
+                if not isinstance(n, ast.Assign) or not isinstance(n.value, ast.Call):
+                    continue
+                h = prog.func_of(prog.resolve_in(n.value.func, g))
+                if h is None:
+                    continue
+                for t in n.targets:
+                    if isinstance(t, ast.Tuple):
+                        for i, el in enumerate(t.elts):
+                            if isinstance(el, ast.Name) and el.id == y:
+                                for rt in h.own_nodes():
+                                    if isinstance(rt, ast.Return) and isinstance(rt.value, ast.Tuple) and i < len(rt.value.elts) and isinstance(rt.value.elts[i], ast.Name):
+                                        out[(h.qname, rt.value.elts[i].id)] = h
+                    elif isinstance(t, ast.Name) and t.id == y:
+                        for rt in h.own_nodes():
+                            if isinstance(rt, ast.Return) and isinstance(rt.value, ast.Name):
+                                out[(h.qname, rt.value.id)] = h
+    return [(h, name) for (_q, name), h in sorted(out.items())]
+
+
+def runids_branch(h):
+    """statements executed for the field 'runids' inside a ``for k, v in ..._asdict().items()`` loop, or None"""
+    for n in h.own_nodes():
+        if isinstance(n, ast.If) and isinstance(n.test, ast.Compare) and len(n.test.ops) == 1:
+            c = n.test.comparators[0]
+            if isinstance(c, ast.Constant) and c.value == 'runids' and isinstance(n.test.left, ast.Name):
+                if isinstance(n.test.ops[0], ast.Eq):
+                    return n.body
+                if isinstance(n.test.ops[0], ast.NotEq) and n.orelse:
+                    return n.orelse
+    return None
 
 
 def _runid_sources(prog, cls_q):
@@ -2082,7 +2176,7 @@ def _rule1(ctx, rep):
             for q in sorted(uc.inlined):
                 rep.analysed(prog.funcs[q])
             if not uc.cov:
-                raise AnalysisError(f'{cq}: the runids value was located but no consumer of it was recognised')
+                raise AnalysisError(f'{cq}: no expression denoting the scrubbed runids was recognised in {[m.name for m in srcs]}')
             for src in sorted(uc.cov):
                 sf = prog.funcs[src]
                 for alt in (I_, R_):
@@ -2115,7 +2209,142 @@ def _rule1(ctx, rep):
                     f'run-id entries are collected in {name} but {name} is never read: the constraint is lost',
                     nontrivial=False,
                 )
+        # ---- a run-id expression denotes a union: it may add at most one term to a list that is joined with AND
+        for cq in sorted(backends):
+            for h, coll in and_joined(prog, cq):
+                body = runids_branch(h)
+                r.instance()
+                rep.analysed(h)
+                key = f'{h.qname}:runids-terms-conjoined'
+                if body is None:
+                    r.fail(key, where(h), f'{h.name} builds the AND-joined list {coll} but its runids branch was not recognised; not understood')
+                    continue
+                tf = _Terms(prog, h, coll)
+                o = tf.run(ast.Module(body=body, type_ignores=[]), 0)
+                worst = max(o.normal | o.ret | o.cont | o.brk | {0})
+                r.extra['and_terms_states'] = tf.visited
+                r.check(
+                    worst <= 1 and not tf.not_understood,
+                    key,
+                    where(h, body[0]),
+                    f'one run-id expression adds at most one term to {coll} (joined with AND)',
+                    f'one run-id expression can add several terms to {coll}, which is joined with AND: the ranges / ids of the '
+                    'expression are intersected instead of united (two disjoint ranges, or a range and an id, match nothing)'
+                    + (f'; not followed: {tf.not_understood}' if tf.not_understood else ''),
+                )
         r.note(
-            'not claimed: that the per-range and per-id constraints are combined as a union (shelve: "or"; post joins every '
-            'term with AND, see final report), and the meaning of the sentinel -1 ("latest")'
+            'not claimed: that the shelve match predicate combines the id set and the ranges with "or", and the meaning '
+            'of the sentinel -1 ("latest")'
         )
+
+
+# ---------------------------------------------------------------------------
+
+
+def check(ctx):
+    rep = Report(
+        PID,
+        ctx.tier,
+        ctx.prog,
+        'Decides from the source of db/basis.py, db/shelve/search.py, db/post/search.py (and the key builder in '
+        'db/shelve/model.py): (1) a type-flow over the two alternatives of the scrubbed runids (int | Range) showing that '
+        'each consumer discriminates them, that every path of the Range alternative yields a constraint and that no Range '
+        'is tested by set membership; (2) linear-form normalisation of the page bounds (slice / LIMIT-OFFSET) for limit '
+        'None, 0 and > 0; (3) agreement of the field/position/table lookup tables with Params._fields and the key tuple; '
+        '(4) granularity (set of 5-component keys), natural run-id-first order, total from the unsliced list; (5) the '
+        'merge step and the index-absorption test of _scrub evaluated over a complete small model of the end points. '
+        'Not decided: agreement with concrete database contents, the SQL executed by PostgreSQL, parsing of the textual '
+        'run-id expression in _divide, the meaning of the sentinel -1.',
+        assumptions=[
+            'run ids are integers and the analysed code touches them only through comparisons and +/- literals',
+            'tuple ordering and sorted() are those of CPython; slices clamp at the sequence length',
+            'SearchFacade.find/facet are the only entry points (they are typing.final) and always scrub first',
+        ],
+    )
+    rep.not_decided = [
+        'agreement with concrete database contents',
+        'behaviour of the SQL statements inside PostgreSQL',
+        'textual parsing of run-id expressions (_divide)',
+        'that the shelve match predicate unites ids and ranges (only: no Range in a membership test, each alternative used)',
+    ]
+    _rule1(ctx, rep)
+    _rule2(ctx, rep)
+    _rule3(ctx, rep)
+    _rule4(ctx, rep)
+    _rule5(ctx, rep)
+    return rep
+
+
+_SH, _PO, _BA = 'db/shelve/search.py', 'db/post/search.py', 'db/basis.py'
+_PK, _FI = 'SearchImplementation._prime_keys', 'SearchImplementation._find'
+_AR, _AC = 'SearchImplementation.__add_runids', 'SearchImplementation.__args_n_constraints'
+
+# ``old`` texts that only exist after pending fixes C17-1..4 are skipped automatically on the unrepaired tree
+VARIANTS = [
+    # ---- R-C17-1
+    V('ranges added to the id set again', 'B', _SH, _PK, 'ranges.append(rid)', 'rids.add(rid)', 'R-C17-1'),
+    V('Range alternative dropped in shelve', 'B', _SH, _PK, 'ranges.append(rid)', 'pass', 'R-C17-1'),
+    V('range list tested by membership', 'B', _SH, _PK, 'any(runid in r for r in ranges)', 'runid in ranges', 'R-C17-1'),
+    V('alternatives not discriminated', 'B', _SH, _PK, 'if isinstance(rid, Range):', 'if rid.stop is None:', 'R-C17-1'),
+    V('post: open range ignored again', 'B', _PO, _AR,
+      'if rid.stop is None:\n                    terms.append(_RANGE_UE)\n                    args.append(rid.start)\n                else:\n                    terms.append(_RANGE)',
+      'if rid.stop:\n                    terms.append(_RANGE)', 'R-C17-1'),
+    V('post: one AND term per range again', 'B', _PO, _AR, 'terms.append(_RANGE)', 'constraints.append(_RANGE)', 'R-C17-1'),
+    V('post: filter drops ranges silently', 'B', _PO, _AR, 'filter(lambda i: i >= 0, runids)', 'filter(lambda i: i.start > 5, runids)', 'R-C17-1'),
+    V('shelve: comprehension discrimination', 'N', _SH, _PK,
+      'for rid in v:\n                    if isinstance(rid, Range):\n                        ranges.append(rid)\n                    else:\n                        rids.add(rid)',
+      'ranges.extend(r for r in v if isinstance(r, Range))\n                rids.update(i for i in v if not isinstance(i, Range))', None),
+    V('shelve: loop variable renamed, branches inverted', 'N', _SH, _PK,
+      'for rid in v:\n                    if isinstance(rid, Range):\n                        ranges.append(rid)\n                    else:\n                        rids.add(rid)',
+      'for entry in v:\n                    if not isinstance(entry, Range):\n                        rids.add(entry)\n                    else:\n                        ranges.append(entry)', None),
+    V('shelve: logging added', 'N', _SH, _PK, 'results = set()', 'results = set()\n        print("searching", parameters)', None),
+    V('post: sentinel filter mirrored', 'N', _PO, _AR, 'lambda i: i >= 0', 'lambda i: 0 <= i', None),
+    # ---- R-C17-2
+    V('slice end is limit again', 'B', _SH, _FI, 'pks[index:stop]', 'pks[index:limit]', 'R-C17-2'),
+    V('stop computed without index', 'B', _SH, _FI, 'else index + limit', 'else limit', 'R-C17-2'),
+    V('page starts at 0', 'B', _SH, _FI, 'pks[index:stop]', 'pks[:stop]', 'R-C17-2'),
+    V('post: LIMIT/OFFSET arguments swapped', 'B', _PO, _FI, 'args.extend([limit, index])', 'args.extend([index, limit])', 'R-C17-2'),
+    V('post: limit None no longer means all', 'B', _PO, _FI, 'limit = total if limit is None else limit', 'limit = 0 if limit is None else limit', 'R-C17-2'),
+    V('post: OFFSET literal dropped', 'B', _PO, _FI, "'LIMIT %s OFFSET %s;'", "'OFFSET %s LIMIT %s;'", 'R-C17-2'),
+    V('chained slices', 'N', _SH, _FI, 'pks[index:stop]', 'pks[index:][:limit]', None),
+    V('inline conditional bound', 'N', _SH, _FI, 'pks[index:stop]', 'pks[index : (index + limit if limit is not None else None)]', None),
+    V('bound clamped to length', 'N', _SH, _FI, 'stop = None if limit is None else index + limit', 'stop = len(pks) if limit is None else min(index + limit, len(pks))', None),
+    V('post: limit normalised with an if', 'N', _PO, _FI, 'limit = total if limit is None else limit', 'if limit is None:\n                limit = total', None),
+    # ---- R-C17-3
+    V('_align with tasks/targets swapped', 'B', _SH, '_align', "'targets', 'tasks'", "'tasks', 'targets'", 'R-C17-3'),
+    V('_table_index: algs looked up in the task table', 'B', _SH, '_table_index', "'algs': Table.alg", "'algs': Table.task", 'R-C17-3'),
+    V('_table_index: field missing', 'B', _SH, '_table_index', "'vals': Table.value,", '', 'R-C17-3'),
+    V('post table keyed with a typo again', 'B', _PO, None, "'vals': _SqlInfo", "'vaks': _SqlInfo", 'R-C17-3'),
+    V('_align via Params._fields', 'N', _SH, '_align',
+      "return { k: i for i, k in enumerate( ['runids', 'targets', 'tasks', 'algs', 'svs', 'vals'] ) }[param_name]",
+      'return Params._fields.index(param_name)', None),
+    V('_align as literal table', 'N', _SH, '_align',
+      "return { k: i for i, k in enumerate( ['runids', 'targets', 'tasks', 'algs', 'svs', 'vals'] ) }[param_name]",
+      "return {'runids': 0, 'targets': 1, 'tasks': 2, 'algs': 3, 'svs': 4, 'vals': 5}[param_name]", None),
+    # ---- R-C17-4
+    V('total counts the page', 'B', _SH, _FI, 'total=len(pks)', 'total=len(items)', 'R-C17-4'),
+    V('value granularity', 'B', _SH, _PK, 'results.add(pk[:keylen])', 'results.add(pk)', 'R-C17-4'),
+    V('matches not sorted', 'B', _SH, _PK, 'return sorted(results)', 'return list(results)', 'R-C17-4'),
+    V('matches sorted descending', 'B', _SH, _PK, 'return sorted(results)', 'return sorted(results, reverse=True)', 'R-C17-4'),
+    V('results kept in a list', 'B', _SH, _PK, 'results = set()', 'results = list()', 'R-C17-4'),
+    V('task decoded from the algorithm slot', 'B', _SH, _FI, 'DBI().indices.task[pk[2]]', 'DBI().indices.task[pk[3]]', 'R-C17-4'),
+    V('page re-sorted', 'B', _SH, _FI, 'return SearchResults(items=items', 'items.sort()\n        return SearchResults(items=items', 'R-C17-4'),
+    V('post: order by target first', 'B', _PO, _FI, "'ORDER BY p.run_ID, p.tn_ID,", "'ORDER BY p.tn_ID, p.run_ID,", 'R-C17-4'),
+    V('post: total from the page', 'B', _PO, _FI, 'return SearchResults(items, total)', 'return SearchResults(items, len(items))', 'R-C17-4'),
+    V('total through a temporary', 'N', _SH, _FI, 'return SearchResults(items=items, total=len(pks))', 'n = len(pks)\n        return SearchResults(items=items, total=n)', None),
+    V('explicit reverse=False', 'N', _SH, _PK, 'return sorted(results)', 'return sorted(results, reverse=False)', None),
+    # ---- R-C17-5
+    V('merge keeps the smaller stop', 'B', _BA, 'SearchFacade._scrub', 'r.stop > merged[-1].stop', 'r.stop < merged[-1].stop', 'R-C17-5'),
+    V('merge forgets the open end', 'B', _BA, 'SearchFacade._scrub', 'elif r.stop is None or r.stop > merged[-1].stop:', 'elif r.stop is not None and r.stop > merged[-1].stop:', 'R-C17-5'),
+    V('merge glues across a gap', 'B', _BA, 'SearchFacade._scrub', 'if r.start > merged[-1].stop:', 'if r.start > merged[-1].stop + 1:', 'R-C17-5'),
+    V('absorption with closed upper end', 'B', _BA, 'SearchFacade._scrub', 'r.start <= i < (', 'r.start <= i <= (', 'R-C17-5'),
+    V('absorption needs every range', 'B', _BA, 'SearchFacade._scrub', 'if not any(', 'if not all(', 'R-C17-5'),
+    V('ranges not sorted before merging', 'B', _BA, 'SearchFacade._scrub', 'ranges.sort(key=lambda r: r.start)', 'pass', 'R-C17-5'),
+    V('ranges sorted by stop', 'B', _BA, 'SearchFacade._scrub', 'ranges.sort(key=lambda r: r.start)', 'ranges.sort(key=lambda r: r.stop or 0)', 'R-C17-5'),
+    V('Range closed at the top', 'B', _BA, 'Range.__contains__', 'self.start <= member < self.stop', 'self.start <= member <= self.stop', 'R-C17-5'),
+    V('kept ids not returned', 'B', _BA, 'SearchFacade._scrub', 'runidset.extend(indices)', 'pass', 'R-C17-5'),
+    V('adjacent ranges kept apart', 'N', _BA, 'SearchFacade._scrub', 'if r.start > merged[-1].stop:', 'if r.start >= merged[-1].stop:', None),
+    V('open tail ends the merge', 'N', _BA, 'SearchFacade._scrub', 'if merged[-1].stop is None:\n                            continue', 'if merged[-1].stop is None:\n                            break', None),
+    V('absorption through Range.__contains__', 'N', _BA, 'SearchFacade._scrub', 'r.start <= i < (i + 1 if r.stop is None else r.stop)', 'i in r', None),
+    V('sorted() instead of sort()', 'N', _BA, 'SearchFacade._scrub', 'ranges.sort(key=lambda r: r.start)', 'ranges = sorted(ranges, key=lambda x: x.start)', None),
+]
